@@ -2973,7 +2973,11 @@ func (c S3ApiController) DeleteBucket(ctx *fiber.Ctx) error {
 	// must not be taken for the deletion of the bucket
 	for _, sub := range []string{"lifecycle", "encryption", "website",
 		"replication", "publicAccessBlock", "analytics", "metrics",
-		"inventory", "intelligent-tiering", "metadataTable"} {
+		"inventory", "intelligent-tiering", "metadataTable",
+		// sub-resources that have no DELETE operation at all
+		"accelerate", "logging", "notification", "requestPayment", "acl",
+		"versioning", "object-lock", "policyStatus", "location", "uploads",
+		"versions", "delete"} {
 		if ctx.Request().URI().QueryArgs().Has(sub) {
 			return SendResponse(ctx, s3err.GetAPIError(s3err.ErrNotImplemented),
 				&MetaOpts{
